@@ -65,6 +65,15 @@ func templatePath(verif, fn string) string {
 func runReplay(P *Prog, o *Obligation, pkgPath string) (src string, out string, confirmed bool) {
 	tp := templatePath(P.verif, o.Func)
 	data, err := os.ReadFile(tp)
+	entry := ""
+	if err != nil {
+		// table entries share the table's template
+		if i := strings.Index(o.Func, "["); i > 0 && strings.HasSuffix(o.Func, "]") {
+			entry = o.Func[i+1 : len(o.Func)-1]
+			tp = templatePath(P.verif, o.Func[:i])
+			data, err = os.ReadFile(tp)
+		}
+	}
 	if err != nil {
 		return "", "no replay template for " + o.Func + " (" + tp + ")", false
 	}
@@ -96,7 +105,25 @@ func runReplay(P *Prog, o *Obligation, pkgPath string) (src string, out string, 
 			return "false"
 		},
 		"has": func(name string) bool { _, ok := model[name]; return ok },
+		"typename": func(name string) string {
+			// dynamic type of an interface-typed input, "" when nil or unknown
+			if v, ok := smtIntValue(model["typeid("+name+")"]); ok {
+				id, _ := strconv.Atoi(v)
+				if t, ok := typeByID[id]; ok {
+					return typeKey(t)
+				}
+			}
+			return ""
+		},
 		"obligation": func() string { return o.Name },
+		"entry":      func() string { return entry },
+		"entryfield": func(k int) string {
+			f := strings.Split(entry, ",")
+			if k < len(f) {
+				return f[k]
+			}
+			return ""
+		},
 		"kind":       func() string { return o.Kind },
 	}
 	t, err := template.New("replay").Funcs(funcs).Parse(string(data))
